@@ -1,3 +1,4 @@
 -- Every property theorem file (built by setup.sh; each check builds only its own).
 import ReuseVerif.Theorems.C12
 import ReuseVerif.Theorems.C05
+import ReuseVerif.Theorems.C17
